@@ -874,7 +874,7 @@ def rule_G(ctx):
     N = 5
     FEATS = {'a': [3.0, -1.5, 0.0, NANV, 2.0], 'b': [2.0, 2.0, -4.0, 1.0, 0.0], 'rate': [1.0, 4.0, 9.0, 16.0, 25.0],
              'p': [1e-20, 2e-20, -1e-20, 5e-20, 1e-20], 'E': [5.0, 6.0, 7.0, 8.0, 9.0], 'w': [4.0, -7.0, 1.0, -7.0, 9.5],
-             'n0': [NANV, 2.0, -1.0, 4.0, 0.5], 'nl': [1.0, 3.0, 2.0, 6.0, NANV]}
+             'n0': [NANV, 2.0, -1.0, 4.0, 0.5], 'nl': [1.0, 3.0, 2.0, 6.0, NANV], 'neg': [-3.0, -1.5, -4.0, -2.0, -0.5], 'zs': [0.0, 0.0, 0.0, 0.0, 0.0]}
     VIRT = {'x': [1.0 + k for k in range(N)], 'y': [10.0 - 2.0 * k for k in range(N)], 'z': [0.5 * k * k for k in range(N)],
             't': [100.0 + 3.0 * k for k in range(N)], 'idx': [float(k) for k in range(N)]}
 
@@ -1132,6 +1132,8 @@ def rule_G(ctx):
         run('functions', ('fun', f, ('fun', 'D', RATE)))
         run('functions', ('fun', f, ('name', 'n0')))
         run('functions', ('fun', f, ('name', 'nl')))
+        run('functions', ('fun', f, ('name', 'neg')))          # every value negative
+        run('functions', ('fun', f, ('name', 'zs')))           # every value zero
     run('functions', ('bin', '-', RATE, ('fun', 'I', ('fun', 'D', RATE))))
     # F4 unary minus
     for e in (('neg', A), ('bin', '+', ('neg', A), B), ('bin', '*', B, ('neg', A)), ('bin', '-', B, ('neg', two)), ('neg', ('bin', '+', A, B)), ('bin', '^', ('neg', RATE), two),
